@@ -194,7 +194,7 @@ REV_PROGS = ['x*x', 'x/(1+x*x)', 'exp', 'buffer', 'dot(mat,mat)', 'dot(mat,vec)'
 
 def units(tier, seed):
     out = []
-    D, P = (3, 2) if tier == 'quick' else (4, 3)
+    D, P = (3, 2) if tier == 'quick' else (5, 3)
     for op in O.catalogue():
         if 'c14only' in op.tags:
             continue
